@@ -1034,6 +1034,20 @@ def directed_structural():
     for x, y in [(3, 4), (4, 4)]:
         add("id", "(a b) (a c) -> a b c", [[x * 2, y * 3]], {"b": 2, "c": 3})
         add("sum", "(a 2) [(a 3)]", [[x * 2, y * 3]])
+    # (B2) a flattened / concatenated group repeated by an ellipsis, with different lengths per repetition (the repetitions
+    # are different axes; nothing may identify them)
+    for api in ("solve_shapes", "matches", "solve_axes"):
+        add(api, "(a b)...", [[6, 4]], {"b": 2})
+        add(api, "(a b)...", [[6, 4]], {"b": (3, 2)})
+        add(api, "(a b)... c", [[6, 4, 3]], {"a": (2, 4)})
+        add(api, "c (a + b)...", [[3, 6, 4]], {"a": (2, 1)})
+        add(api, "((a b)... c), ((a b) r)...", [[72], [4, 9]], {"c": 2, "r": (1, 1)})
+    add("solve_shapes", "(a b)...", [[6, 4]])
+    add("matches", "(a b)...", [[6, 4]])
+    add("solve_shapes", "(a b)... c", [[6, 4, 3]])
+    add("solve_shapes", "c (a + b)...", [[3, 6, 4]])
+    add("id", "(a b)... c -> c (a b)...", [[6, 4, 3]])
+    add("sum", "(a b)... [c]", [[6, 4, 3]])
     # (C) long per-repetition constraints (the constraint is rendered as text and parsed again inside the solver: long
     # vectors, many digits) -- must behave like short ones
     for api in ("solve_shapes", "solve_axes", "matches"):
